@@ -4,6 +4,7 @@ package simwork
 
 import (
 	"encoding/json"
+	"time"
 	"fmt"
 	"path/filepath"
 	"strings"
@@ -59,6 +60,7 @@ type Transition struct {
 	Old  Record
 	New  Record
 	By   string // path prefix (which process wrote it)
+	At   time.Time
 }
 
 // Monitor watches every status rewrite in the process through the step hooks:
@@ -107,7 +109,7 @@ func (m *Monitor) observe(kind, path string) {
 		if strings.HasPrefix(kind, "save") {
 			k = "save"
 		}
-		t := Transition{File: real, Unit: filepath.Base(filepath.Dir(real)), Kind: k, Old: old, New: nw, By: path}
+		t := Transition{File: real, Unit: filepath.Base(filepath.Dir(real)), Kind: k, Old: old, New: nw, By: path, At: time.Now()}
 		m.Trans = append(m.Trans, t)
 		cb := m.OnTrans
 		m.mu.Unlock()
